@@ -112,6 +112,36 @@ static bool set_iface_attr(vp_iface *it, const char *k, const char *v, bool crea
     if (!strcmp(k, "getfail")) { if (!parse_u64(v, &u) || u > 511) return false; it->getfail = (unsigned)u; return true; }
     return false;
 }
+#ifdef HAVE_STATE_VIEW
+typedef void (*lltd_verif_obs_fn)(void *arg, const void *node20);
+int lltd_verif_state_view(void *iface_ctx, unsigned long out[8], const uint8_t **mapper_real,
+                          const uint8_t **mapper_apparent, lltd_verif_obs_fn each, void *arg);
+struct headcap { int n; uint8_t first[20]; int dump; int iface; };
+static void obs_cb(void *arg, const void *node20) {
+    struct headcap *h = arg;
+    if (h->n == 0) memcpy(h->first, node20, 20);
+    if (h->dump) { fprintf(vp_out, "obs %d %d ", h->iface, h->n); vp_hex(vp_out, node20, 20); fputc('\n', vp_out); }
+    h->n++;
+}
+#endif
+/* the per-interface record as the core holds it now (state correspondence with the model's `St`) */
+static void show_state(int I, int dump) {
+#ifdef HAVE_STATE_VIEW
+    unsigned long o[8]; const uint8_t *mr = NULL, *ma = NULL;
+    struct headcap h; memset(&h, 0, sizeof(h)); h.dump = dump; h.iface = I;
+    if (!lltd_verif_state_view(&vp_ifaces[I], o, &mr, &ma, obs_cb, &h)) { fprintf(vp_out, "st %d none\n", I); return; }
+    fprintf(vp_out, "st %d known=%lu real=", I, o[2]); vp_hex(vp_out, mr, 6);
+    fprintf(vp_out, " app="); vp_hex(vp_out, ma, 6);
+    fprintf(vp_out, " seq=%lu gt=%lu gq=%lu icon=", o[3], o[4], o[5]);
+    if (o[6]) fprintf(vp_out, "%lu", o[7]); else fprintf(vp_out, "none");
+    fprintf(vp_out, " isz=%lu count=%lu n=%lu head=", o[7], o[0], o[1]);
+    if (o[1]) vp_hex(vp_out, h.first, 20); else fputc('-', vp_out);
+    fputc('\n', vp_out);
+#else
+    (void)I; (void)dump;
+#endif
+}
+
 static bool set_glob_attr(const char *k, const char *v) {
     uint8_t *p; long n;
     if (!strcmp(k, "host")) { n = parse_hex(v, &p); if (n < 0 || n > 255) { free(p); return false; } memcpy(vp_glob.host, p, (size_t)n); vp_glob.host_len = (size_t)n; free(p); return true; }
@@ -225,6 +255,7 @@ static void run_line(char *line) {
             switch_state_session(g_fsm[S], h->opcode, "rx");
         }
         parseFrame(it->recvbuf, it);
+        show_state(I, 0);
         if (lin) { show_fsm(M); show_fsm(S); }
     } else if (!strcmp(op, "note")) {
         fprintf(vp_out, "ok\n");
@@ -249,6 +280,11 @@ static void run_line(char *line) {
             free(recs[i].data);
         }
         free(recs);
+        show_state(Bi, 0);
+    } else if (!strcmp(op, "dump")) {
+        int I = nt == 2 ? parse_idx(tok[1], VP_MAX_IFACE) : -1;
+        if (I < 0 || !vp_ifaces[I].used) { bad(); goto end; }
+        show_state(I, 1);
     } else if (!strcmp(op, "clock")) {
         uint64_t d; if (nt != 2 || !parse_u64(tok[1], &d)) { bad(); goto end; }
         vp_clock_ms += d;
